@@ -5,6 +5,8 @@ func init() {
 		"running totals are asserted for synchronous sums and histograms only; for asynchronous instruments the statement's per-cycle rule is the oracle",
 		"nothing is asserted about synchronous streams (incl. gauge sets) that were not recorded in a cycle: the delta reader may omit them, the cumulative reader may keep or forget them",
 		"exponential buckets are compared after re-binning to the coarsest scale involved, for values at least 1e-6 index units (scale 20) away from a bucket boundary; exact powers of two are left to C07",
+		"the first delta interval of an instrument created mid-history starts at its creation (harness bracket around the creation call), not at the previous collection",
+		"any previously filled ResourceMetrics (fresh, the reader's own, or one the other reader filled) is legal input to Collect; each explicit-bucket point must carry len(Bounds)+1 bucket counts",
 		"delta StartTime is bracketed by the harness's wall-clock readings around the previous delta collection (monotonic clock); the cardinality limit is left to C12",
 	))
 }
